@@ -183,6 +183,7 @@ def check_z3(ctx) -> None:
                 f'ReservoirPressurePredictor signature changed: {f.args}')
     a = Rat.atom
     n_steps = a('project_lifetime_yr') * a('timesteps_per_year')
+    ctx.local_anchor(f, 'pressure')
     init = [s for s in f.node.body if isinstance(s, ast.Assign) and norm(s.targets[0]) == 'pressure']
     ok = len(init) == 1 and norm(init[0].value) in ('[initial_pressure_kPa] * project_lifetime_yr * timesteps_per_year',)
     ctx.check(ok, 'Z3', 'ReservoirPressurePredictor/initialised-at-hydrostatic', f'{rel}:{init[0].lineno if init else f.node.lineno}',
